@@ -255,7 +255,20 @@ func c14CLIQuery(t *rapid.T) []string {
 	w := rapid.SampledFrom([]string{"how", "do", "I", "compress", "files", "list", "directory", "what", "is", "this", "disk", "usage", "tar", "find"})
 	punct := rapid.SampledFrom([]string{"?", "!", ".", "...", "??", " ?", "? ", " ? ?", ",", ":", "'", "\"", ")", "-", "--", "#", "%", "*", "~", "\\"})
 	var words []string
-	switch rapid.IntRange(0, 5).Draw(t, "cli-shape") {
+	switch rapid.IntRange(0, 6).Draw(t, "cli-shape") {
+	case 6: // 995-1000 bytes of text, over the limit only through white space around it (or a final empty argument)
+		body := strings.Repeat("a", rapid.IntRange(995, 1000).Draw(t, "body-len"))
+		pad := rapid.SampledFrom([]string{" ", "  ", "\t", "\n", "\u00a0", "\u3000", "      "})
+		switch rapid.IntRange(0, 3).Draw(t, "pad-where") {
+		case 0:
+			words = []string{pad.Draw(t, "lead") + body}
+		case 1:
+			words = []string{body + pad.Draw(t, "trail")}
+		case 2:
+			words = []string{pad.Draw(t, "lead") + body + pad.Draw(t, "trail")}
+		default:
+			words = []string{body, "", ""}
+		}
 	case 0: // a question, punctuation at the end
 		words = []string{gen.TextOf(w, 1, 5).Draw(t, "sentence") + punct.Draw(t, "end")}
 	case 1: // punctuation only
